@@ -59,6 +59,8 @@ type PfcpServer struct {
 	rxTrans      map[string]*RxTransaction // key: RemoteAddr-Sequence
 	txSeq        uint32
 	log          *logrus.Entry
+	started      bool
+	done         chan struct{} // closed when the event loop has exited
 }
 
 func NewPfcpServer(cfg *factory.Config, driver forwarder.Driver) *PfcpServer {
@@ -76,6 +78,7 @@ func NewPfcpServer(cfg *factory.Config, driver forwarder.Driver) *PfcpServer {
 		txTrans:      make(map[string]*TxTransaction),
 		rxTrans:      make(map[string]*RxTransaction),
 		log:          logger.PfcpLog.WithField(logger_util.FieldListenAddr, listen),
+		done:         make(chan struct{}),
 	}
 }
 
@@ -89,8 +92,11 @@ func (s *PfcpServer) main(wg *sync.WaitGroup) {
 		s.log.Infoln("pfcp server stopped")
 		s.stopTrTimers()
 		close(s.rcvCh)
-		close(s.srCh)
-		close(s.trToCh)
+		// report producers and timer callbacks may still be posting: release them instead of
+		// closing the channels under them
+		if s.done != nil {
+			close(s.done)
+		}
 		wg.Done()
 	}()
 
@@ -219,6 +225,7 @@ func (s *PfcpServer) receiver(wg *sync.WaitGroup) {
 
 func (s *PfcpServer) Start(wg *sync.WaitGroup) {
 	s.log.Infoln("starting pfcp server")
+	s.started = true
 	wg.Add(1)
 	go s.main(wg)
 	s.log.Infoln("pfcp server started")
@@ -231,6 +238,11 @@ func (s *PfcpServer) Stop() {
 		if err != nil {
 			s.log.Errorf("Stop pfcp server err: %+v", err)
 		}
+	}
+	// the event loop may be in the middle of a driver call: let it finish before the caller
+	// goes on to close the driver
+	if s.started && s.done != nil {
+		<-s.done
 	}
 }
 
@@ -255,11 +267,17 @@ func (s *PfcpServer) UpdateNodeID(n *RemoteNode, newId string) {
 }
 
 func (s *PfcpServer) NotifySessReport(sr report.SessReport) {
-	s.srCh <- sr
+	select {
+	case s.srCh <- sr:
+	case <-s.done:
+	}
 }
 
 func (s *PfcpServer) NotifyTransTimeout(trType TransType, trID string) {
-	s.trToCh <- TransactionTimeout{TrType: trType, TrID: trID}
+	select {
+	case s.trToCh <- TransactionTimeout{TrType: trType, TrID: trID}:
+	case <-s.done:
+	}
 }
 
 func (s *PfcpServer) PopBufPkt(seid uint64, pdrid uint16) ([]byte, bool) {
